@@ -86,7 +86,53 @@ def gen_program(rng, size):
         if i > 0 and rng.random() < 0.12:
             oname = f"o{rng.randrange(i)}"      # two outputs under one name (both sides accept that; both are delivered)
         emit({"op": "out", "v": v, "name": oname, "party": rng.choice(regs(["party"]))}, "out")
+    if rng.random() < 0.35:
+        cmds = declare_lazily(cmds)
     return cmds
+
+
+REG_FIELDS = ("party", "r", "a", "b", "c", "v")
+
+
+def declare_lazily(cmds):
+    """the same program with every party / input / wrapper declared just before its first use (declarations that nothing
+    uses stay where they were, at the end): later declarations then follow earlier computations and outputs"""
+    def deps(c):
+        return [c[k] for k in REG_FIELDS if k in c and isinstance(c[k], int) and not (c["op"] == "wrap" and k == "v")]
+    order, done = [], set()
+
+    def visit(i):
+        if i in done:
+            return
+        for d in deps(cmds[i]):
+            visit(d)
+        done.add(i)
+        order.append(i)
+    # a wrapper re-typing an input that is wrapped twice must keep its place relative to the other wrapper of that input
+    wraps = {}
+    for i, c in enumerate(cmds):
+        if c["op"] == "wrap":
+            wraps.setdefault(c["r"], []).append(i)
+    for i, c in enumerate(cmds):
+        if c["op"] in ("party", "input", "wrap"):
+            continue
+        for d in deps(c):
+            if cmds[d]["op"] == "wrap":
+                for w in wraps[cmds[d]["r"]]:
+                    if w <= d:
+                        visit(w)
+        visit(i)
+    for i in range(len(cmds)):
+        visit(i)
+    pos = {old: new for new, old in enumerate(order)}
+    out = []
+    for old in order:
+        c = dict(cmds[old])
+        for k in REG_FIELDS:
+            if k in c and isinstance(c[k], int) and not (c["op"] == "wrap" and k == "v"):
+                c[k] = pos[c[k]]
+        out.append(c)
+    return out
 
 
 # ---- renderer -------------------------------------------------------------------------------------
@@ -94,9 +140,23 @@ def render(rng, cmds, module_level=0):
     """Python text of the program; the first `module_level` declarations are placed at module level"""
     head, body, outs, out_stmts = [], [], [], []
     helper_used = False
+    # some programs construct an output as soon as its value and party exist — before later parties and inputs are declared
+    early = rng.random() < 0.4
+    pending = [(i, c) for i, c in enumerate(cmds) if c["op"] == "out"] if early else []
+    placed = {}
+
+    def flush(r):
+        for i, c in list(pending):
+            if c["v"] <= r and c["party"] <= r and r >= module_level and rng.random() < 0.7:
+                pending.remove((i, c))
+                placed[i] = f'r{i} = Output(r{c["v"]}, "{c["name"]}", r{c["party"]})'
+                body.append(placed[i])
     for r, c in enumerate(cmds):
         v = f"r{r}"
         op = c["op"]
+        if r in placed:
+            outs.append(v)
+            continue
         if op == "party":
             s = rng.choice([f'{v} = Party(name="{c["name"]}")', f'{v} = Party("{c["name"]}")'])
         elif op == "input":
@@ -131,6 +191,8 @@ def render(rng, cmds, module_level=0):
             out_stmts.append(s)
             continue
         (head if r < module_level and op in ("party", "input", "wrap") else body).append(s)
+        if early and op != "out":
+            flush(r)
     # the outputs are *constructed* in any order (and a draft that is never returned may be constructed too): the program's
     # outputs are the ones nada_main returns, in the order of the returned list
     if out_stmts and rng.random() < 0.4:
